@@ -11,11 +11,14 @@ package main
 // observer: when the recorded entry is rendered) is visible in the output.
 
 import (
+	"context"
 	"fmt"
+	"log/slog"
 	"strconv"
 	"time"
 
 	"go.uber.org/zap"
+	"go.uber.org/zap/exp/zapslog"
 	"go.uber.org/zap/zapcore"
 	"go.uber.org/zap/zaptest/observer"
 )
@@ -203,6 +206,40 @@ func (e *c07env) build(c *c07comp) zapcore.Core {
 	}
 }
 
+func (env *c07env) reset() {
+	env.aux = nil
+	for _, s := range env.sinks {
+		s.lines = nil
+	}
+}
+
+// aux events in real order, then the lines of every sink
+func (env *c07env) collect() []SX {
+	parts := []SX{L(env.aux...)}
+	for _, s := range env.sinks {
+		var ls []SX
+		if s.kind == ckObs {
+			for _, le := range s.logs.TakeAll() {
+				// render the recorded entry now (the world is still that of the call)
+				enc := zapcore.NewJSONEncoder(env.ecfg)
+				buf, err := enc.EncodeEntry(le.Entry, le.Context)
+				if err != nil {
+					ls = append(ls, L(Str("render error: "+err.Error())))
+					continue
+				}
+				ls = append(ls, L(B(buf.Bytes())))
+				buf.Free()
+			}
+		} else {
+			for _, ln := range s.lines {
+				ls = append(ls, L(B(ln)))
+			}
+		}
+		parts = append(parts, L(ls...))
+	}
+	return parts
+}
+
 // ---------- programs ----------
 const (
 	stWith = iota
@@ -313,10 +350,7 @@ func c07run(comp *c07comp, env *c07env, ops []*c07op) (opx []SX, obs []SX) {
 			nodes = append(nodes, nn)
 			continue
 		}
-		env.aux = nil
-		for _, s := range env.sinks {
-			s.lines = nil
-		}
+		env.reset()
 		lvl := zapcore.InfoLevel
 		if o.hi {
 			lvl = zapcore.WarnLevel
@@ -335,29 +369,7 @@ func c07run(comp *c07comp, env *c07env, ops []*c07op) (opx []SX, obs []SX) {
 		default:
 			n.plain.Info(string(o.msg), o.fs.fs...)
 		}
-		// collect: aux events in real order, then per sink
-		parts := []SX{L(env.aux...)}
-		for _, s := range env.sinks {
-			var ls []SX
-			if s.kind == ckObs {
-				for _, le := range s.logs.TakeAll() {
-					// render the recorded entry now (the world is still o.w)
-					enc := zapcore.NewJSONEncoder(env.ecfg)
-					buf, err := enc.EncodeEntry(le.Entry, le.Context)
-					if err != nil {
-						ls = append(ls, L(Str("render error: "+err.Error())))
-						continue
-					}
-					ls = append(ls, L(B(buf.Bytes())))
-					buf.Free()
-				}
-			} else {
-				for _, ln := range s.lines {
-					ls = append(ls, L(B(ln)))
-				}
-			}
-			parts = append(parts, L(ls...))
-		}
+		parts := env.collect()
 		obs = append(obs, L(parts...))
 	}
 	return
@@ -719,7 +731,10 @@ func c07directed(c *Ctx) {
 		}
 	}
 	type builder func(g *c07gen, p *c07prog)
-	one := func(g *c07gen, k string) c07fields { f, x := g.str(k, k+"!"); return c07fields{[]zapcore.Field{f}, []SX{x}} }
+	one := func(g *c07gen, k string) c07fields {
+		f, x := g.str(k, k+"!")
+		return c07fields{[]zapcore.Field{f}, []SX{x}}
+	}
 	mutf := func(g *c07gen, kind int, k string) c07fields {
 		f, x := g.mut(kind, k)
 		return c07fields{[]zapcore.Field{f}, []SX{x}}
@@ -770,7 +785,7 @@ func c07directed(c *Ctx) {
 			e := g.derive(p, 0, stWith, mutf(g, 0, "eager"), nil)
 			logAt(p, 0, true, c07fields{}, 5)
 			logAt(p, n, true, mutf(g, 3, "call"), 7) // first use of l's core
-			logAt(p, l, true, c07fields{}, 9)         // already evaluated at 7
+			logAt(p, l, true, c07fields{}, 9)        // already evaluated at 7
 			logAt(p, e, true, c07fields{}, 11)
 		},
 		// disabled call does not evaluate; With() does not; WithOptions(Fields()) does
@@ -834,6 +849,142 @@ func c07directed(c *Ctx) {
 	}
 }
 
+// ---------- slog front end (exp/zapslog) ----------
+type c07sop struct {
+	kind  int // 2 WithAttrs, 3 WithGroup, 4 Handle
+	node  int
+	attrs []slog.Attr
+	xs    []SX
+	g     string
+	hi    bool
+	msg   string
+	w     int64
+}
+
+func (o *c07sop) sx() SX {
+	switch o.kind {
+	case 2:
+		return L(I(2), I(o.node), L(o.xs...), Z(o.w))
+	case 3:
+		return L(I(3), I(o.node), Str(o.g), Z(o.w))
+	default:
+		return L(I(4), I(o.node), Bool(o.hi), Str(o.msg), L(o.xs...), Z(o.w))
+	}
+}
+
+func c07attrs(r *RNG, n int) ([]slog.Attr, []SX) {
+	var as []slog.Attr
+	var xs []SX
+	for i := 0; i < n; i++ {
+		k := c07keys[r.Intn(len(c07keys))]
+		switch x := r.Intn(20); {
+		case x < 9:
+			v := fmt.Sprintf("s%d", r.Intn(100))
+			as, xs = append(as, slog.String(k, v)), append(xs, L(I(4), Str(k), Str(v)))
+		case x < 15:
+			v := genInt(r)
+			as, xs = append(as, slog.Int64(k, v)), append(xs, L(I(1), Str(k), Z(v)))
+		case x < 19:
+			v := r.Bool()
+			as, xs = append(as, slog.Bool(k, v)), append(xs, L(I(0), Str(k), Bool(v)))
+		default:
+			as, xs = append(as, slog.Attr{}), append(xs, L(I(12)))
+		}
+	}
+	return as, xs
+}
+
+func (g *c07gen) slogProg(maxNodes int) (string, []*c07sop) {
+	r := g.r
+	name := []string{"", "svc", "a.b"}[r.Intn(3)]
+	var ops []*c07sop
+	nodes := 1
+	w := int64(1)
+	handle := func(n int) {
+		as, xs := c07attrs(r, r.Intn(3))
+		w += int64(r.Intn(2))
+		ops = append(ops, &c07sop{kind: 4, node: n, hi: r.Chance(40), msg: "m", attrs: as, xs: xs, w: w})
+	}
+	n := r.Range(3, maxNodes)
+	for nodes < n {
+		parent := r.Intn(nodes)
+		if r.Chance(40) {
+			parent = nodes - 1
+		}
+		w += int64(r.Intn(2))
+		if r.Chance(60) {
+			as, xs := c07attrs(r, r.Intn(4))
+			ops = append(ops, &c07sop{kind: 2, node: parent, attrs: as, xs: xs, w: w})
+		} else {
+			ops = append(ops, &c07sop{kind: 3, node: parent, g: []string{"g", "h", "req", "x.y"}[r.Intn(4)], w: w})
+		}
+		nodes++
+		if r.Chance(30) {
+			handle(r.Intn(nodes))
+		}
+	}
+	for i := nodes - 1; i >= 0; i-- {
+		handle((i*7 + 3) % nodes)
+	}
+	return name, ops
+}
+
+func (g *c07gen) emitSlog(c *Ctx, comp *c07comp, name string, ops []*c07sop) {
+	var opx, obs []SX
+	for _, o := range ops {
+		opx = append(opx, o.sx())
+	}
+	input := L(comp.sx(), L(opx...), I(1), Str(name))
+	var pmsg string
+	panicked := false
+	func() {
+		defer func() {
+			if e := recover(); e != nil {
+				pmsg = fmt.Sprint(e)
+				panicked = true
+			}
+		}()
+		env := g.env
+		core := env.build(comp)
+		hs := []slog.Handler{zapslog.NewHandler(core, zapslog.WithName(name))}
+		for _, o := range ops {
+			env.world = o.w
+			h := hs[o.node]
+			switch o.kind {
+			case 2:
+				hs = append(hs, h.WithAttrs(o.attrs))
+			case 3:
+				hs = append(hs, h.WithGroup(o.g))
+			default:
+				env.reset()
+				lvl := slog.LevelInfo
+				if o.hi {
+					lvl = slog.LevelWarn
+				}
+				slog.New(h).LogAttrs(context.Background(), lvl, o.msg, o.attrs...)
+				obs = append(obs, L(env.collect()...))
+			}
+		}
+	}()
+	if panicked {
+		c.Viol("a panic escaped the slog handler: "+pmsg, input)
+		return
+	}
+	groups, attrsOps := 0, 0
+	for _, o := range ops {
+		if o.kind == 3 {
+			groups++
+		} else if o.kind == 2 {
+			attrsOps++
+		}
+	}
+	nt := "0"
+	if groups >= 1 && attrsOps >= 2 {
+		nt = "1"
+	}
+	c.Emit(input, L(obs...), map[string]string{"nt": nt, "class": "slog:" + comp.class(), "groups": fmt.Sprint(groups)})
+}
+
 func c07(c *Ctx) {
 	c07directed(c)
 	r := NewRNG(c.Seed)
@@ -859,6 +1010,16 @@ func c07(c *Ctx) {
 		}
 		comp := g.comp(3, false)
 		g.emit(c, comp, g.randProg(mn), "rand")
+	}
+	nSlog := 500
+	if c.Thorough {
+		nSlog = 20000
+	}
+	for i := 0; i < nSlog; i++ {
+		g := newC07gen(r.Fork())
+		comp := g.comp(2, false)
+		name, ops := g.slogProg(12)
+		g.emitSlog(c, comp, name, ops)
 	}
 }
 
